@@ -30,6 +30,7 @@ def facts : Facts :=
     restrictedCond := "rname := p.Name() + name; restricted[rname] && importPath == p.Name() => pname = rname",
     usePkg := ["\"UsePkg\": usePkg", "usePkg := len(typ) > 0", "range name, v val => usePkg = usePkg || v.Name == p.Name()+\".\"+name"],
     fixComplex := ["re := fixConst(name, constant.Real(val), imports)", "im := fixConst(name, constant.Imag(val), imports)", "return fmt.Sprintf(\"constant.BinaryOp(%s, token.ADD, constant.MakeImag(%s))\", re, im)"],
+    qualify := ["range _, pkg p.Imports() => imports[pkg.Path()] = false", "if pkg.Path() != importPath => imports[pkg.Path()] = true", "return pkg.Name()"],
     tmpl := [("addr", "\"{{$key}}\": reflect.ValueOf(&{{$value.Name}}).Elem(),"),
      ("value", "\"{{$key}}\": reflect.ValueOf({{$value.Name}}),"),
      ("type", "\"{{$key}}\": reflect.ValueOf((*{{$value}})(nil)),"),
